@@ -142,6 +142,7 @@ def check(R, tier):
     U.delegation_edits(R, I, tier)
     U.editor_switch(R, I, tier)
     U.walk_publication(R, I, tier)
+    U.add_role_unit(R, I, tier)
     native(R, tier)
 
 def native(R, tier):
@@ -194,12 +195,23 @@ def native(R, tier):
                 if not any(v['what'].startswith('delegate_role') for v in R.violations):
                     R.report_violation(f'delegate_role with keys {old} in the table, {sup} supplied, {roles} role(s), {pending} pending: ' + (r2.get('violations') or [r2.get('error')])[0], {'op': 'delegate_role', 'old_keys': old, 'supplied_keys': sup, 'roles': roles, 'pending': pending})
             else: R.differential['agree'] += 1
+    # add_role: the six configurations of the solver harness against the real editor and FilesystemTransport (also the replay of add_role/* counterexamples)
+    ar_dev = False
+    for kg in (0, 1, 2):
+        for hd in (True, False):
+            r2 = R.replay('add_role', {'keys_given': kg, 'doc_has_deleg': hd})
+            R.differential['scenarios'] += 1
+            if r2.get('violations') or r2.get('error'):
+                ar_dev = True
+                if not any(v['what'].startswith('add_role') for v in R.violations):
+                    R.report_violation(f'add_role with {kg} supplied key(s), role file {"with" if hd else "without"} delegations: ' + (r2.get('violations') or [r2.get('error')])[0], {'op': 'add_role', 'keys_given': kg, 'doc_has_deleg': hd})
+            else: R.differential['agree'] += 1
     # the cross-party flow: genuine / same-version / under-signed / wrong keys / mixed / older / unsigned hand-overs against the real editor
     cp = R.replay('cross_party', {'seed': seed}, timeout=600)
     R.differential['scenarios'] += cp['cases']; R.differential['agree'] += cp['cases'] - len(cp['deviations'])
     for d in cp['deviations'][:2]:
         R.report_violation('cross-party update: ' + d['what'], {'op': 'cross_party', 'seed': seed, 'native': d})
-    others = [c for c in R.counterexamples if c['group'] != 'program/target-set' and not (c['group'].startswith('update/') and cp['deviations']) and not (c['group'].startswith('delegate/') and dl_dev)]
+    others = [c for c in R.counterexamples if c['group'] != 'program/target-set' and not (c['group'].startswith('update/') and cp['deviations']) and not (c['group'].startswith('delegate/') and dl_dev) and not (c['group'].startswith('add_role/') and ar_dev)]
     if others and not real:
         for cx in others[:3]:
             R.inconclusive.append(f'counterexample for "{cx["obligation"]}" did not show up in the native editor sweep ({st["programs"]} programs): {str(cx.get("scenario"))[:300]}')
@@ -208,6 +220,8 @@ def replay_file(R, path):
     sc = json.load(open(path))['scenario']
     if sc.get('op') == 'cross_party':
         print(json.dumps(R.replay('cross_party', {'seed': sc.get('seed', 0)}))); return 0
+    if sc.get('op') == 'add_role':
+        print(json.dumps(R.replay('add_role', {'keys_given': sc.get('keys_given'), 'doc_has_deleg': sc.get('doc_has_deleg')}))); return 0
     if sc.get('op') == 'delegate_role':
         print(json.dumps(R.replay('delegate_role', {k: sc.get(k) for k in ('old_keys', 'supplied_keys', 'roles', 'pending')}))); return 0
     if sc.get('op') == 'editor_program':
